@@ -137,7 +137,8 @@ def build_traces(path, tier, seed):
                     {"kind": "rel", "law": "EntryPointsAgree", "n": n, "entry": e, "shape_mismatch": True})
     # the absolute time scale: the same T/dt and xi on records timed in very different units (xi * w from 1e-3 to 1e7 per unit
     # of time; an implementation may not depend on the unit)
-    for j, (dt_, ratio_, xi_) in enumerate([(1.0e-4, 10.0, 0.3), (0.01, 0.2, 0.5), (1.0e-5, 40.0, 0.05), (1.0e-7, 8.0, 0.7), (50.0, 12.0, 0.3), (1.0e-4, 5.0, 0.999)]):
+    for j, (dt_, ratio_, xi_) in enumerate([(1.0e-4, 10.0, 0.3), (0.01, 0.2, 0.5), (1.0e-5, 40.0, 0.05), (1.0e-7, 8.0, 0.7), (50.0, 12.0, 0.3), (1.0e-4, 5.0, 0.999),
+                                            (2.0e-9, 4.0, 0.05), (1.0e-10, 15.0, 0.2), (3.0e3, 9.0, 0.1)]):      # (... down to records timed in nanoseconds: T itself is below 1e-8)
         n = int(rng.integers(20, 80))
         a, shape = gen.record(rng, n, shape=["noise", "step", "sine"][j % 3], amp=1.0)
         res = three(a, dt_, [ratio_ * dt_], xi_, container=j)
